@@ -48,6 +48,8 @@ fn main() {
         hang_s: 300.0,
         inflight_file: None,
         out_file: None,
+        stack_mib: 256,
+        only_prefix: None,
     };
     let mut out_file: Option<String> = None;
     let mut list_families = false;
@@ -112,6 +114,14 @@ fn main() {
             }
             "--hang-seconds" => {
                 cfg.hang_s = need(i).parse().unwrap_or(300.0);
+                i += 1;
+            }
+            "--stack-mib" => {
+                cfg.stack_mib = need(i).parse().unwrap_or(256);
+                i += 1;
+            }
+            "--only-prefix" => {
+                cfg.only_prefix = Some(need(i).to_string());
                 i += 1;
             }
             "--inflight-file" => {
